@@ -148,11 +148,11 @@ void ApiRun::verify_roundtrip(int ci, int version, const Op &o) {
     const std::string P = cfg.prop;
     Causes causes; for (auto &b : c.model.blocks) scan_cont(b, causes);
     SimOut out; Rng r(hmix(o.seed, 5));
-    out.max_accept = r.chance(1, 2) ? (size_t) r.range(1, 97) : 0;
+    (void) r.chance(1, 2);   // (short writes are not injected: glibc never shows them to fwrite callers on real files, and does not retry them on cookie streams)
     bool wfault = o.fault_kind == 20;
     if (wfault) { out.err_at = o.fault_at; g_stats.inc("fault.stream_write_err.configured"); }
     FILE *f = out.open();
-    if (r.chance(1, 3)) setvbuf(f, NULL, _IOFBF, (size_t) r.range(16, 512));
+    (void) r.chance(1, 3);
     struct cif_write_opts_s *wo = NULL;
     int rc0 = CALL("cif_write_options_create", (wo = NULL, cif_write_options_create(&wo)));
     expect_rc("cif_write_options_create", rc0, {CIF_OK});
@@ -162,6 +162,10 @@ void ApiRun::verify_roundtrip(int ci, int version, const Op &o) {
     fflush(f); int ferr = ferror(f); fclose(f);
     cover(O_Checkpoint, rc, (uint64_t) version * 16 + (causes.composite ? 1 : 0) + (causes.nl_semi ? 2 : 0) + (causes.non11 ? 4 : 0) + (wfault ? 8 : 0));
     ev("cif_write(v%d) -> %s, %zu bytes, ferror=%d", version, rc_name(rc), out.data.size(), ferr);
+    if (g_log.keep_text) {   // for humans reading a replay trace; not part of the fingerprint-relevant decisions
+        std::string o; for (size_t i = 0; i < out.data.size() && o.size() < 1500; ++i) { unsigned char ch = out.data[i]; if (ch == '\n') o += "\\n"; else if (ch >= 0x20 && ch < 0x7f) o += (char) ch; else o += strprintf("\\x%02x", ch); }
+        g_log.text.push_back("output: " + o); if (g_log.side) { fputs(("output: " + o + "\n").c_str(), g_log.side); fflush(g_log.side); }
+    }
     if (sqlite3_get_autocommit(c.cif->db) == 0) violate("autocommit", "cif_write", "a transaction is still open after cif_write");
     check_dump(ci, "after cif_write (source must be unchanged)");
     if (wfault && out.err_fired) {
